@@ -199,6 +199,7 @@ fn op_name(op: &EOp) -> &'static str {
         EOp::AddDecoded(_) => "add_decoded_copy",
         EOp::Hash2Related(..) => "hash_to_curve_related_inputs",
         EOp::ZeroizedCopyEncoded(_) => "zeroized_copy_encoded",
+        EOp::OperatorForm(..) => "operator_form",
     }
 }
 
@@ -209,6 +210,10 @@ struct Built {
     same_as: Option<usize>,
     rng: Option<(u64, u64, u64)>, // draws, faulty draws, try_fill calls
     none: bool,                   // constructor legitimately yielded nothing
+}
+
+fn el<T: Into<Element>>(t: T) -> Element {
+    t.into()
 }
 
 fn plain(e: Element) -> Built {
@@ -407,6 +412,65 @@ fn build(op: &EOp, pool: &[PoolEntry]) -> Built {
                 same_as: src_index(*i),
                 ..plain(a.into_group())
             }
+        }
+        EOp::OperatorForm(k, i, j, h) => {
+            let (x, y) = (get(*i), get(*j));
+            let (ax, ay): (AffinePoint, AffinePoint) = (x.into(), y.into());
+            let f = fr_from_hex(h);
+            plain(match k % 24 {
+                0 => el(&x + &y),
+                1 => el(x + &y),
+                2 => el(&x + y),
+                3 => {
+                    let mut t = x;
+                    t += y;
+                    t
+                }
+                4 => {
+                    let mut t = x;
+                    t += &y;
+                    t
+                }
+                5 => el(ax + ay),
+                6 => el(&ax + &ay),
+                7 => el(ax + y),
+                8 => el(x - ay),
+                9 => el(ax - ay),
+                10 => {
+                    let mut t = x;
+                    t -= ay;
+                    t
+                }
+                11 => el(f * x),
+                12 => el(&f * &x),
+                13 => el(f * ax),
+                14 => {
+                    let mut t = ax;
+                    t *= f;
+                    t.into()
+                }
+                15 => {
+                    let mut t = x;
+                    t *= &f;
+                    t
+                }
+                16 => el([ax, ay, ax].iter().sum::<Element>()),
+                17 => el([x, y].iter().sum::<Element>()),
+                18 => {
+                    let mut t = ax;
+                    t += ay;
+                    t.into()
+                }
+                19 => {
+                    let mut t = x;
+                    t -= &ay;
+                    t
+                }
+                20 => el(&x - &y),
+                21 => el(x - &y),
+                22 => el(vec![ax, ay].into_iter().sum::<Element>()),
+                _ => el(&ax * &f),
+            })
         }
         EOp::AddOtherRep(i) => {
             let p = get(*i);
@@ -800,6 +864,7 @@ macro_rules! sim_field {
             fn wrap(self) -> FVal {
                 FVal::$t(self)
             }
+
             fn unwrap(v: &FVal) -> Option<Self> {
                 match v {
                     FVal::$t(x) => Some(*x),
@@ -992,6 +1057,30 @@ fn build_fpool(ctx: &mut Ctx, run: &IoRun) -> Vec<FEntry> {
                             Fld::int_le(&tb)
                         ),
                     );
+                }
+                // Montgomery-limb constructor (public for Fq only; every curve constant is built with it):
+                // x * R mod p goes in, x comes out
+                if fop.which == Which::Fq {
+                    let f = wire::fld(fop.which);
+                    let r = BigUint::from(1u32) << (8 * f.nbytes);
+                    let m = (&got * r) % &f.p;
+                    let mut mb = m.to_bytes_le();
+                    mb.resize(f.nbytes, 0);
+                    let limbs: Vec<u64> = mb.chunks(8).map(|c| u64::from_le_bytes(<[u8; 8]>::try_from(c).unwrap())).collect();
+                    let back = catch_unwind(AssertUnwindSafe(|| {
+                        let a = <[u64; 4]>::try_from(&limbs[..]).unwrap();
+                        bridge::fq_to_big(&Fq::from_montgomery_limbs(a))
+                    }));
+                    match back {
+                        Ok(x) if x == got => ctx.probe("montgomery_limb_constructor_matched_reference"),
+                        Ok(other) => ctx.viol(
+                            "C11",
+                            "conversion_disagreement",
+                            "field=Fq op=from_montgomery_limbs".into(),
+                            format!("from_montgomery_limbs(x*R) gave {:x} for x = {:x}", other, got),
+                        ),
+                        Err(p) => ctx.viol("C11", "panic", "field=Fq op=from_montgomery_limbs".into(), panic_msg(p)),
+                    }
                 }
                 // decimal text: Display denotes the same integer (the pinned code prints zero as the empty
                 // string; both "" and "0" are taken for zero) and FromStr reads it back
